@@ -848,3 +848,14 @@ M('c02-rollback-asks-get-file', ['C02', 'C12'], ['R2.8', 'R12.8'], [(FB,
   "            if self._old_cache.get_file(filename) is None:\n"
   "                FileBuilder._try_to_remove_file(filename)")],
   'a failed record of the previous build counts as an output')
+# ---- round 11 --------------------------------------------------------------
+M('c18-int-subclass-through-float', ['C18', 'C07'], ['R18.7', 'R7.6'], [(JU,
+  "        elif isinstance(value, int):\n            return int(value)\n"
+  "        elif isinstance(value, float):\n            return float(value)\n",
+  "        elif isinstance(value, (int, float)):\n            return float(value)\n")],
+  'an int-subclass instance becomes a float')
+M('c18-key-to-str-memoised', 'C18', 'R18.7', [(JU,
+  "    @staticmethod\n    def _key_to_str(key):",
+  "    @staticmethod\n    @functools.lru_cache(maxsize=None)\n    def _key_to_str(key):"),
+  (JU, "class JsonUtil:\n", "import functools\n\n\nclass JsonUtil:\n")],
+  'True / 1.0 share one memo entry')
